@@ -140,7 +140,7 @@ func runProperty(cfg *PropConfig, tier string, seed int) *propResult {
 		}
 		masked := false
 		for _, k := range known {
-			if k.Status == "open" && k.Property == cfg.ID && k.Obligation == o.Name {
+			if k.Status == "open" && k.Property == cfg.ID && k.Obligation == stripOrdinal(o.Name) {
 				masked = true
 				line := k.Line
 				if line == "" {
@@ -242,6 +242,26 @@ func (res *propResult) write(cfg *PropConfig, tier string, seed int, wall float6
 	b, _ := json.MarshalIndent(ev, "", " ")
 	os.WriteFile(filepath.Join(verifRoot(), "evidence", cfg.ID+".json"), b, 0o644)
 	fmt.Printf("property=%s tier=%s obligations=%d discharged=%d covers=%d known=%d violations=%d wall=%.1fs\n", cfg.ID, tier, nObl, nDis, nCover, len(seen), len(res.violations), wall)
+}
+
+// stripOrdinal removes the trailing [n] that distinguishes equal obligation names (one per return
+// statement / call site), so that a known finding is identified by function, kind and clause.
+func stripOrdinal(n string) string {
+	if strings.HasSuffix(n, "]") {
+		if i := strings.LastIndex(n, "["); i > 0 {
+			num := n[i+1 : len(n)-1]
+			ok := num != ""
+			for _, c := range num {
+				if c < '0' || c > '9' {
+					ok = false
+				}
+			}
+			if ok {
+				return n[:i]
+			}
+		}
+	}
+	return n
 }
 
 func prefixAll(p string, xs []string) []string {
